@@ -39,6 +39,7 @@ pub struct Facts {
     pub budget_exhausted: bool,
     pub dead: bool,
     pub unmodelled: bool,
+    pub rejected_ver: bool,
     pub probes: BTreeMap<&'static str, u64>,
     pub faults: BTreeMap<&'static str, u64>,
     pub signature: u64,
@@ -508,7 +509,7 @@ pub fn analyze(sc: &StreamScenario, out: &StreamOutcome) -> Analysis {
                                         ka_returned += 1;
                                         if !wire_broken && p_off / 4 < ka_returned {
                                             vio.push(v(
-                                                "pong.missing_at_return",
+                                                if p_off % 4 != 0 { "wire.partial_pong_at_return" } else { "pong.missing_at_return" },
                                                 format!("keep-alive #{} handed to the caller with only {} complete replies ({} bytes) on the wire", ka_returned, p_off / 4, p_off),
                                             ));
                                         }
@@ -518,6 +519,10 @@ pub fn analyze(sc: &StreamScenario, out: &StreamOutcome) -> Analysis {
                                     }
                                     if matches!(res, AppRes::IncompatibleVersion(_)) {
                                         facts.probe("ver_rejected");
+                                        // "the connection is lost" (builder docs): nothing is
+                                        // demanded of the session after a correct rejection
+                                        dead = true;
+                                        facts.rejected_ver = true;
                                     }
                                     if model.has_ver[nf] && matches!(res, AppRes::Pkt(_)) {
                                         facts.probe("ver_delivered");
